@@ -314,6 +314,7 @@ var StartURLs = []string{
 	"javascript:alert(1)",
 	"ftp://u@h:2121/",
 	"http://h/C|/x",
+	"foo://:pw@h/p",
 }
 
 // SetterValues is the per-setter value menu: every early return of the override paths is hit.
